@@ -6,6 +6,7 @@ import (
 	"sort"
 	"strings"
 	"time"
+	"unsafe"
 
 	libaudit "github.com/elastic/go-libaudit/v2"
 	"github.com/elastic/go-libaudit/v2/auparse"
@@ -23,18 +24,22 @@ type recKind struct {
 	Type uint16
 	Raw  bool // enter through Push(typ, raw) instead of PushMessage
 	Nil  bool
+	TS   int // timestamp variant: records of one event normally share a timestamp, these do not
 }
 
 var recKinds = map[string]recKind{
-	"mid":    {Name: "mid", Type: 1300},
-	"midRaw": {Name: "midRaw", Type: 1300, Raw: true},
-	"path":   {Name: "path", Type: 1302},
-	"fin":    {Name: "fin", Type: 1327},
-	"finRaw": {Name: "finRaw", Type: 1327, Raw: true},
-	"user":   {Name: "user", Type: 1112},
-	"anom":   {Name: "anom", Type: 2100},
-	"eoe":    {Name: "eoe", Type: 1320},
-	"nil":    {Name: "nil", Nil: true},
+	"mid":      {Name: "mid", Type: 1300},
+	"midRaw":   {Name: "midRaw", Type: 1300, Raw: true},
+	"path":     {Name: "path", Type: 1302},
+	"fin":      {Name: "fin", Type: 1327},
+	"finRaw":   {Name: "finRaw", Type: 1327, Raw: true},
+	"user":     {Name: "user", Type: 1112},
+	"anom":     {Name: "anom", Type: 2100},
+	"eoe":      {Name: "eoe", Type: 1320},
+	"midTs":    {Name: "midTs", Type: 1300, TS: 1},
+	"midRawTs": {Name: "midRawTs", Type: 1300, Raw: true, TS: 1},
+	"finTs":    {Name: "finTs", Type: 1327, TS: 2},
+	"nil":      {Name: "nil", Nil: true},
 }
 
 // terminating is the completion rule named by the property's anchors
@@ -396,12 +401,15 @@ func (in *Instance) Apply(op Op) {
 		if k.Raw {
 			in.nextTag++
 			rec.tag = fmt.Sprintf("tag=<%d>", in.nextTag)
-			raw := fmt.Sprintf("audit(1700000000.123:%d): %s a=b", op.Seq, rec.tag)
+			raw := fmt.Sprintf("audit(%d.123:%d): %s a=b", 1700000000+77*k.TS, op.Seq, rec.tag)
 			if err := in.r.Push(auparse.AuditMessageType(k.Type), []byte(raw)); err != nil {
 				in.fail("M01", "push-error", "Push(%d, %q) returned %v", k.Type, raw, err)
 			}
 		} else {
 			rec.ptr = &auparse.AuditMessage{RecordType: auparse.AuditMessageType(k.Type), Sequence: op.Seq}
+			if k.TS != 0 {
+				rec.ptr.Timestamp = time.Unix(int64(1700000000+77*k.TS), 123000000).UTC()
+			}
 			in.r.PushMessage(rec.ptr)
 		}
 		in.endCall(op)
@@ -545,6 +553,14 @@ func (in *Instance) Key() [20]byte {
 				// the Reassembler looks only at RecordType and Sequence
 				w.U64(v.FieldByName("RecordType").Uint())
 				w.U64(v.FieldByName("Sequence").Uint())
+				if ts := v.FieldByName("Timestamp"); ts.IsValid() && ts.CanAddr() {
+					tm := *(*time.Time)(unsafe.Pointer(ts.UnsafeAddr()))
+					if tm.IsZero() {
+						w.U64(0)
+					} else {
+						w.U64(uint64(tm.Unix()))
+					}
+				}
 				return true
 			}
 			return false
